@@ -1,6 +1,6 @@
 #!/bin/bash
 # tools/run_all.sh [tier] [seed]: runs every registered check once; prints one line per property.
-cd /verif
+cd "$(dirname "$(readlink -f "$0")")/.."
 tier="${1:-quick}"; seed="${2:-1}"
 for p in $(python3 -c "import json;print(' '.join(c['property_id'] for c in json.load(open('MANIFEST.json'))['checks']))"); do
   t0=$(date +%s)
